@@ -8,6 +8,7 @@ recorded finding.  The rewriting strategies: see DESIGN.md §4 C09 for what is p
 import LithiumProofs.MinimizeLog
 import LithiumProofs.PairsBound
 import LithiumProofs.CollapseBound
+import LithiumProofs.Rewrite
 import LithiumProps.C06
 
 namespace Strat
@@ -149,6 +150,29 @@ theorem C09_collapse_terminates (B A : List UInt8) (cfg : Cfg) (o : Oracle) (clk
    collapse_bound _ (reloadOK_of_roundtrip _ (Load.C06_roundtrip_symbol B A)) cfg o clk t h hne hmax,
    collapse_bound _ (reloadOK_of_roundtrip _ Load.C06_roundtrip_jsstr) cfg o clk t h hne hmax,
    collapse_bound _ (reloadOK_of_roundtrip _ Load.C06_roundtrip_attrs) cfg o clk t h hne hmax⟩
+
+/-- The two rewriting strategies, as far as their ROUND SKELETON goes (`rwLoop`: which pass follows
+which; what a pass does to the text is not modelled): if no pass runs more than `P` tests and the
+passes never report more than `B` removed characters in total, the strategy ends by its `break` after
+at most `B + log2 cs + 2` passes and `P·(B + log2 cs + 2)` tests, for every repeat mode and every
+smallest chunk size `final ≥ 1`.  The two hypotheses are checked on the numbers the real
+`try_making_globals` / `try_arguments_as_globals` report (harness/props/c09.py); for
+replace-arguments-by-globals the second one can fail (recorded finding `replace-arguments-grows`). -/
+theorem C09_rewrite_skeleton (rep : Repeat) (final cs B P : Nat) (pass : Nat → Nat × Nat) (hf : 1 ≤ final)
+    (hP : ∀ k, (pass k).1 ≤ P) (hB : ∀ k, removedSum pass k ≤ B) :
+    let r := rwLoop rep final pass (B + Nat.log2 cs + 3) 0 cs 0
+    r.2.2 = true ∧ r.1 ≤ P * (B + Nat.log2 cs + 2) ∧ r.2.1 ≤ B + Nat.log2 cs + 2 := by
+  simp only
+  have hm : rwMeasure final B pass 0 cs ≤ B + Nat.log2 cs + 1 := by
+    unfold rwMeasure
+    split <;> simp [removedSum] <;> omega
+  obtain ⟨a, b, c⟩ := rwLoop_bound rep final B P pass hf hP hB (B + Nat.log2 cs + 3) 0 cs 0 (by omega)
+  refine ⟨a, ?_, by omega⟩
+  have := Nat.mul_le_mul_left P (show rwMeasure final B pass 0 cs + 1 ≤ B + Nat.log2 cs + 2 by omega)
+  omega
+
+/-- non-vacuity: chunk sizes 4, 2, 1 with one repeated last pass -/
+example : rwLoop .last 1 (fun k => if k = 2 then (3, 5) else (2, 0)) 20 0 4 0 = (9, 4, true) := by decide
 
 namespace Regrow
 def data : Bytes := "a b x0{\n}x1{\n}x2{\n}x3{\n}x4{\n}x5{\n}".toUTF8.toList
